@@ -758,8 +758,22 @@ def _process_step_result_tick(
         [x for x in tick.result if isinstance(x, StepWorkerResult)]
     )
     step_no_longer_in_progress = True
+    # An attempt that called collect_events on an outdated buffer snapshot is void:
+    # it is run again from the current buffer (see AddCollectedEvent below). If it
+    # went on to fail or to wait, that must not be acted on as well, or the same
+    # input is executed twice (the re-run plus the retry / the waiter's replay).
+    rerun_from_current_buffer = any(
+        isinstance(x, AddCollectedEvent)
+        and len(worker_state.collected_events.get(x.event_id, []))
+        > len(this_execution.shared_state.collected_events.get(x.event_id, []))
+        for x in tick.result
+    )
 
     for result in tick.result:
+        if rerun_from_current_buffer and isinstance(
+            result, (StepWorkerFailed, AddWaiter)
+        ):
+            continue
         if isinstance(result, StepWorkerResult):
             output_event_name = str(type(result.result))
             if isinstance(result.result, StopEvent):
